@@ -31,6 +31,7 @@ verus! {
 //@struct file=dasp_signal/src/lib.rs name=Take
 //@struct file=dasp_signal/src/lib.rs name=ClipAmp
 //@struct file=dasp_signal/src/lib.rs name=IntoInterleavedSamples
+//@struct file=dasp_signal/src/lib.rs name=IntoInterleavedSamplesIterator
 
 // ---------------------------------------------------------------------------------------------
 // &mut S : "borrowed signals resume exactly where an adaptor left off"
@@ -422,6 +423,30 @@ pub open spec fn clip_spec<X: Sample>(x: X, t: X::Signed) -> X {
 //@entry
         broadcast use ax_channels_next;
         proof { <S::Frame as Frame>::nch_positive(); }
+//@end
+//@fn file=dasp_signal/src/lib.rs in="impl:<S> IntoInterleavedSamples<S>" name=into_iter ret=r label=IntoInterleavedSamples::into_iter
+//@spec
+        // the iterator continues EXACTLY where next_sample left off (a frame in progress is not dropped, nothing is pulled)
+        ensures r.samples == self,
+//@end
+//@endimpl
+
+//@impl file=dasp_signal/src/lib.rs header="impl<S> Iterator for IntoInterleavedSamplesIterator<S>" as="impl<S> IntoInterleavedSamplesIterator<S>"
+//@fn file=dasp_signal/src/lib.rs in="impl:<S> Iterator for IntoInterleavedSamplesIterator<S>" name=next ret=r label=IntoInterleavedSamplesIterator::next vis=pub "rules=R-subst:Self::Item=><S::Frame as Frame>::Sample"
+//@spec
+        // the iterator is next_sample, call for call
+        requires old(self).samples.wf(),
+        ensures
+            final(self).samples.wf(),
+            forall|f: S::Frame, i: nat| old(self).samples.at(f, i) && i < <S::Frame as Frame>::nch() ==>
+                r == Some(f.ch(i as int)) && final(self).samples.at(f, i + 1) && final(self).samples.signal.st() == old(self).samples.signal.st(),
+            (old(self).samples.current_frame is None || exists|f: S::Frame| old(self).samples.at(f, <S::Frame as Frame>::nch())) ==> (
+                (S::exh(old(self).samples.signal.st()) ==> r is None && final(self).samples.current_frame is None
+                    && final(self).samples.signal.st() == old(self).samples.signal.st())
+                && (!S::exh(old(self).samples.signal.st()) ==> exists|g: S::Frame|
+                    #[trigger] S::trans(old(self).samples.signal.cfg(), old(self).samples.signal.st(), g, final(self).samples.signal.st())
+                    && r == Some(g.ch(0)) && final(self).samples.at(g, 1))
+            ),
 //@end
 //@endimpl
 
